@@ -32,6 +32,13 @@ func NewErrUnkownStatement(name string) error {
 	return psqlerr.WithSeverity(psqlerr.WithCode(err, codes.InvalidPreparedStatementDefinition), psqlerr.LevelFatal)
 }
 
+// NewErrUnknownPortal is returned whenever no portal has been found for the
+// given name.
+func NewErrUnknownPortal(name string) error {
+	err := fmt.Errorf("unknown portal: %s", name)
+	return psqlerr.WithSeverity(psqlerr.WithCode(err, codes.InvalidCursorName), psqlerr.LevelError)
+}
+
 // NewErrUndefinedStatement is returned whenever no statement has been defined
 // within the incoming query.
 func NewErrUndefinedStatement() error {
